@@ -18,6 +18,7 @@ decides whether
             the body (a set `more` flag on the block that happens to end the body only costs progress — DESIGN §6 O2 —
             and is not judged), total size announced correctly (RFC 7959 §2.2, §4);
 * `hang`    when the history ends every call has returned (with a response or an error);
+* `leak`    long after every deadline has passed and both sides have been swept, no reassembly or sending buffer is held;
 * `oneway`  a one-way write that reported success, in a history without any fault and with nothing left in flight, has
             brought its body to the peer's application (the one-way style has no other way to "end with an error").
 
@@ -75,6 +76,7 @@ inductive Ev
   | wrote (side tok : Nat) (ok : Bool) -- a one-way write of `side`'s application returned
   | disturbed                         -- the network did something else than deliver the oldest message, or time passed
   | settled (inFlight : Nat)          -- the history is at rest: this many messages are still in flight
+  | atRest (held : Nat)               -- long after every deadline, both sides swept: this many cache entries are still held
   | stuck (side : Nat)                -- everything is at rest and the layer of `side` has not finished handling a message
   deriving Repr
 
@@ -162,6 +164,8 @@ def judgeEv (s : JState) : Ev → JState × Option String
   | .finished => (s, if s.open_.isEmpty then none else some s!"hang: calls {s.open_} never returned")
   | .wrote side tok ok => (if ok then { s with wrotes := (side, tok) :: s.wrotes } else s, none)
   | .disturbed => ({ s with disturbed := true }, none)
+  | .atRest held =>
+    (s, if held = 0 then none else some s!"leak: {held} block-wise buffers (cache entries) outlive their exchanges: still held after every deadline has passed and both sides were swept")
   | .stuck side =>
     (s, some s!"hang: the layer of side {side} never finished handling a message (blocked although nothing else is running)")
   | .settled n =>
